@@ -59,6 +59,19 @@ Theorem C09_busy_keeps_alive :
 Proof. exact busy_strong. Qed.
 Print Assumptions C09_busy_keeps_alive.
 
+(* a held keep-alive substream keeps the connection alive whether or not its write half has been
+   shut down: half-closing (close()/shutdown() while still reading) changes neither the permits
+   held nor the opens in flight, and the channel still has a strong sender afterwards — also after
+   any later keep-alive downgrade of the handle, by C09_busy_keeps_alive *)
+Theorem C09_half_closed_keeps_alive :
+  forall s dt c,
+  0 < ch_held_of c (s_chans s) ->
+  s_chans (fst (step s dt (EShutSub c))) = s_chans s /\
+  s_pend (fst (step s dt (EShutSub c))) = s_pend s /\
+  0 < strong (fst (step s dt (EShutSub c))) c.
+Proof. exact shut_keeps. Qed.
+Print Assumptions C09_half_closed_keeps_alive.
+
 Theorem C09_idle_closes :
   forall s c,
   svc_strong (s_ctxs s) c = false -> pend_on c (s_pend s) = 0 -> ch_held_of c (s_chans s) = 0 ->
@@ -169,3 +182,13 @@ Example C09_nonvacuous_ping :
   let tr := [(0, EEst 0 1); (200, EOpen 0); (200, ENone)] in
   concat (run (init false 300 0) tr) = [OEst 0; ORet 0 0; OCmd 1 0; ODown 0 1].
 Proof. vm_compute. reflexivity. Qed.
+
+(* non-vacuity of the half-close statement: T = 300, inbound keep-alive substream at 0, write half
+   shut at 200, handle downgraded at 400: the channel keeps exactly the substream's permit until
+   the substream is dropped *)
+Example C09_nonvacuous_half_close :
+  let tr := [(0, EEst 0 1); (0, ESubIn 0 1 true); (200, EShutSub 1); (200, ENone)] in
+  concat (run (init true 300 0) tr) = [OEst 0; OSub 0 None; ODown 0 1] /\
+  strong (final (init true 300 0) tr) 1 = 1 /\
+  strong (final (init true 300 0) (tr ++ [(0, EDropSub 1)])) 1 = 0.
+Proof. vm_compute. repeat split; reflexivity. Qed.
